@@ -54,6 +54,9 @@ theorem assertApplies_preFail (mt : Str → Str → Bool) (s : RuleState) (g : P
     by_cases h2 : configMissing (convertAliases s.cfg) = true
     · simp only [h2, if_true]; exact ⟨_, rfl⟩
     · simp only [h2, Bool.false_eq_true, if_false]
+      by_cases h0 : droppedAbsent g (convertAliases s.cfg) = true
+      · simp only [h0, if_true]; exact ⟨_, rfl⟩
+      simp only [h0, Bool.false_eq_true, if_false]
       have h3 := h.resolve_left h2
       simp only [h3, if_true]; exact ⟨_, rfl⟩
 
@@ -64,7 +67,10 @@ theorem assertApplies_not_preFail (mt : Str → Str → Bool) (s : RuleState) (g
   simp only [Bool.or_eq_false_iff] at h
   obtain ⟨h1, h2, h3⟩ := h
   unfold assertApplies
-  simp only [h1, h2, h3, Bool.false_eq_true, if_false]
+  by_cases h0 : droppedAbsent g (convertAliases s.cfg) = true
+  · simp only [h1, h2, h0, Bool.false_eq_true, if_false, if_true]
+    constructor <;> intro hk <;> cases hk
+  simp only [h1, h0, h2, h3, Bool.false_eq_true, if_false]
   rw [configMissing_eq] at h2
   generalize convertAliases s.cfg = c at h2 ⊢
   rcases hd : c.importDir with _ | d
